@@ -107,6 +107,8 @@ pub struct Ctx {
 }
 
 const MAX_SAMPLES: usize = 10;
+/// once this many violations are recorded the remaining streams stop generating
+const MAX_FAILS: usize = 4;
 
 impl Ctx {
     pub fn new(property: &str, tier: Tier, seed: u64) -> Self {
@@ -286,6 +288,9 @@ impl Ctx {
                         let failed = AtomicBool::new(false);
                         let strat = proptest::collection::vec(proptest::num::u16::ANY, 0..tape_len);
                         let res = runner.run(&strat, |words| {
+                            if !failed.load(Ordering::Relaxed) && self.stats.lock().unwrap().violations.len() >= MAX_FAILS {
+                                return Ok(());
+                            }
                             let mut tape = Tape::new(&words);
                             let case = gen(&mut tape);
                             let out = check(&case);
